@@ -14,11 +14,12 @@ directly on the real run (oracle vs implementation).
 import os, json, itertools, hashlib, shutil, subprocess, time, threading
 from concurrent.futures import ThreadPoolExecutor
 from .framework import *
+from . import c14_argv as A
 
 PROPERTY = 'C14'
-GEN_MODULES = []
-LEAN_TARGETS = ['ChibiVerif.Props.C14', 'ChibiVerif.Findings.C14']
-PROPS_FILES = ['ChibiVerif/Props/C14.lean']
+GEN_MODULES = ['c14args']
+LEAN_TARGETS = ['ChibiVerif.Props.C14', 'ChibiVerif.Props.C14Args', 'ChibiVerif.Findings.C14', 'ChibiVerif.Findings.C14Args']
+PROPS_FILES = ['ChibiVerif/Props/C14.lean', 'ChibiVerif/Props/C14Args.lean']
 NEEDS_HOOKS = False
 TRUSTED_BASE = [
     'Lean 4.33.0 kernel; axioms admitted: propext, Classical.choice, Quot.sound (audited per theorem on every run)',
@@ -30,12 +31,24 @@ TRUSTED_BASE = [
     'handlers run on exit() and on return from main, not when the driver itself is killed by a signal; a child writes only '
     'its output path; fork does not fail',
     'cc1 is modelled only as far as the property needs: a failing front end writes nothing to its output path (checked on '
-    'the real cc1 with errors raised by the tokenizer, the preprocessor, the parser and the code generator)',
+    'the real cc1 with errors raised by the tokenizer, the preprocessor, the parser and the code generator); the order of its writes '
+    '(output first, dependency file last, nothing that can fail afterwards) is regenerated from main.c (cc1Plan) and decided',
+    'translator tools/extract/c14args.py: take_arg list, option ladder of parse_args, option variables, parse_opt_x, get_file_type, '
+    'run_cc1/assemble/run_linker command lines, cc1\'s tail, every file-system call site -> Gen/C14ArgsGen.lean (ExtractError on any other '
+    'shape); hand-written semantics of those tables Model/C14Args.lean, Model/C14Compose.lean (quote_makefile, replace_extn, basename, '
+    'dependency_path, print_dependencies transcribed; their C text is pinned by the translator), tied on every run by (a) the in-process '
+    'harness tools/harness/c14_args_harness.c (snapshot main.c under ASan/UBSan, every option variable after parse_args) and (b) real '
+    'driver runs from generated command lines: status, trace, files, dependency-file text, full command line of every child',
+    'Model/C14Deps.lean: a cc1 child that ends with status 0 has written its dependency file, any other has not (cc1Plan + the runs with '
+    'failing front ends and unwritable dependency files)',
 ]
 ASSUMPTIONS = [
     'temporary names returned by mkstemp differ from every path named on the command line',
     'two concurrent drivers write disjoint paths (requested outputs and temporaries) and neither writes a path the other reads',
     'a driver killed by a signal itself is outside the property (it speaks of failing steps)',
+    'the dependency file of a unit (-MD/-MF) is not one of the driver\'s own paths (requested output, temporary, input) - proved for the '
+    'derived <stem>.d names (C14_deps_never_output), an obligation of the user for -MF and for -o x.d',
+    'a word `-cc1` on the command line makes the process the compiler proper, not the driver: outside the argv-level theorems (isDriver)',
 ]
 
 # cc1 write errors on the output (ENOSPC: `-o /dev/full`).  None: cases not generated; 'fixed': ordinary cases (the
@@ -73,6 +86,18 @@ if [ -n "$spec" ]; then
     if [ "$how" = "sig" ]; then ulimit -c 0; kill -"$num" $$; sleep 10; fi
     exit "$num"
   fi
+fi
+if [ "$prog" = "ld" ] && [ -n "$C14_FAKE_LD" ]; then
+  # argv leg: the command line is what is compared; the "executable" is an ELF header (e_type = ET_EXEC) followed by the
+  # origin markers of every file named on the command line
+  out=""; prev=""
+  for a in "$@"; do [ "$prev" = "-o" ] && out="$a"; prev="$a"; done
+  [ -n "$out" ] || exit 1
+  { printf '\177ELF\002\001\001\000\000\000\000\000\000\000\000\000\002\000' > "$out"; } 2>/dev/null || { echo "ld: cannot open output file $out" >&2; exit 1; }
+  for a in "$@"; do
+    if [ -f "$a" ] && [ "$a" != "$out" ]; then grep -a -o 'c14_u[0-9]*_' "$a" | sort -u >> "$out"; fi
+  done
+  exit 0
 fi
 real_var="C14_REAL_$prog"
 exec "${!real_var}" "$@"
@@ -133,6 +158,7 @@ class Harness:
         if rc != 0:
             raise RuntimeError('preload observer does not compile: ' + e[-800:])
         self.cc = ctx.cc
+        self.libpaths = A.find_lib_paths()
         self.pool = {}
         self.counter = itertools.count()
         self.lock = threading.Lock()
@@ -172,8 +198,10 @@ class Harness:
         env['C14_REAL_as'] = self.real_as
         env['C14_REAL_ld'] = self.real_ld
         env['C14_REAL_CC'] = self.cc
-        for k in ('C14_FAULT_as', 'C14_FAULT_ld', 'C14_FAULT_cc1', 'C14_MKFAIL'):
+        for k in ('C14_FAULT_as', 'C14_FAULT_ld', 'C14_FAULT_cc1', 'C14_MKFAIL', 'C14_FAKE_LD'):
             env.pop(k, None)
+        if case.get('fake_ld'):
+            env['C14_FAKE_LD'] = '1'
         f = case.get('fault')
         if f and f['via'] == 'shim':
             env['C14_FAULT_' + f['prog']] = f"{f['k']}:{f['how']}:{f['num']}:{f.get('leaves', 'n')}"
@@ -183,6 +211,8 @@ class Harness:
 
     def materialize(self, wd, case):
         """create the input files and sentinels; returns {relpath: tag} of the files that exist"""
+        if 'spec' in case:
+            return A.materialize(self, wd, case['spec'])
         files = {}
         for inp in case['inputs']:
             if inp['kind'] == 'l':
@@ -213,6 +243,8 @@ class Harness:
         return files
 
     def argv(self, case):
+        if 'argv' in case:
+            return list(case['argv'])
         a = []
         if case['mode'] != 'link':
             a.append('-' + case['mode'])
@@ -267,9 +299,12 @@ class Harness:
                 w = line.split('\t')
                 if len(w) >= 3:
                     log.append(w)
-        obs = {'rc': rc, 'pid': pid, 'stderr': se.decode(errors='replace'), 'log': log, 'pre': pre, 'post': post,
+        obs = {'rc': rc, 'pid': pid, 'stderr': se.decode(errors='replace'), 'stdout': so, 'log': log, 'pre': pre, 'post': post,
                'wd': wd, 'ctl': ctl, 'files0': files}
-        self.canon(case, obs)
+        if 'argv' in case:
+            A.canon_real(self, case, obs, self.libpaths)
+        else:
+            self.canon(case, obs)
         return obs
 
     # ------------------------------------------------------------ canonicalisation of the real run
@@ -878,6 +913,223 @@ def model_interleavings(ctx, corr, H):
                                        'model': out[it], 'impl': [sa, sb]})
             return
 
+# ---------------------------------------------------------------- argv level (parser, composition, dependency output)
+
+def args_leg(ctx, corr):
+    """in-process: parse_args of the snapshot (ASan/UBSan) against `drv_c14 parse` on generated argument lists"""
+    T = A.read_tables(ctx.lean_dir)
+    try:
+        AH = A.ArgsHarness(ctx, T, sh, VERIF)
+    except RuntimeError as e:
+        corr.disagreements.append({'kind': 'argument-parser harness', 'input': '-', 'model': '-', 'impl': str(e)})
+        return
+    rng = ctx.rng
+    cases = A.boundary_words(T)
+    n = 40000 if ctx.thorough else 4000
+    cases += [A.gen_words(rng, T) for _ in range(n)]
+    seen, uniq = set(), []
+    for c in cases:
+        k = A.US.join(c) + '#' + str(len(c))
+        if k not in seen and not (len(c) == 1 and c[0] == ''):
+            seen.add(k)
+            uniq.append(c)
+    real, err = AH.run(uniq)
+    model = ctx.driver('parse', ''.join('argv=' + A.US.join(c) + '\n' for c in uniq)).split('\n')
+    corr.extra['parse_cases'] = len(uniq)
+    if len(real) != len(uniq):
+        corr.disagreements.append({'kind': 'argument-parser harness', 'input': '-', 'model': f'{len(uniq)} cases',
+                                   'impl': f'{len(real)} lines; stderr: {err[-600:]}'})
+        return
+    for i, c in enumerate(uniq):
+        corr.evaluations += 1
+        r = real[i]
+        m = model[i] if i < len(model) else '<missing>'
+        kind = r.split(' ')[0]
+        corr.count('parse:' + kind)
+        if len(c) >= 2 and any(w.startswith('-') and len(w) > 1 for w in c):
+            corr.nontrivial.add('parse:' + A.US.join(c))
+        if kind == 'signal' or kind == 'exit':
+            corr.violations.append({'what': 'parse_args does not answer this argument list with a return, usage() or error(): ' + r[:200],
+                                    'input': {'argv': ['chibicc'] + c}, 'argv': c, 'expected': 'C14_args_total: usage(1) or a diagnostic',
+                                    'got': r[:300]})
+            continue
+        if A.norm_parse_line(r) != A.norm_parse_line(m):
+            corr.disagreements.append({'kind': 'parse_args', 'input': {'argv': ['chibicc'] + c}, 'argv': c, 'model': m[:1500], 'impl': r[:1500]})
+            if len(corr.disagreements) > 6:
+                break
+    for c, r in list(zip(uniq, real))[:4000]:
+        if r.startswith('usage 1') and len(c) >= 3 and len(corr.samples) < 2:
+            corr.sample({'argv': c, 'real': r})
+
+def argv_cases(ctx):
+    rng = ctx.rng
+    n = 900 if ctx.thorough else 110
+    cases = []
+    cdir = os.path.join(VERIF, 'corpus', 'C14')
+    if os.path.isdir(cdir):
+        for fn in sorted(os.listdir(cdir)):
+            if fn.startswith('argv') and fn.endswith('.json'):
+                c = json.load(open(os.path.join(cdir, fn)))
+                c['tag'] = 'corpus:' + fn
+                cases.append(c)
+    for it in range(n):
+        spec = A.gen_spec(rng, ctx.thorough)
+        c = {'argv': A.words(spec, rng), 'spec': spec, 'fake_ld': True, 'fault': None, 'mkfail': None, 'tag': 'argv'}
+        r = rng.random()
+        if r < 0.10:
+            c['argv'] = c['argv'] + rng.choice([['-zz'], ['-x'], ['-o'], ['-xfoo'], ['-MF'], ['-D'], ['-L'], ['-I'], ['-Xlinker'], ['-MT'], ['-include']])
+            c['tag'] = 'argv:odd'
+        elif r < 0.40:
+            prog = rng.choice(['cc1', 'as', 'ld', 'cc1'])
+            how, num = rng.choice([('exit', 1), ('exit', 3), ('sig', 11), ('sig', 9)])
+            c['fault'] = {'prog': prog, 'k': rng.choice([0, 0, 0, 1]), 'how': how, 'num': num, 'leaves': rng.choice(['n', 'w', 'r']) if prog != 'cc1' else 'n',
+                          'via': 'shim', 'unit': None}
+            c['tag'] = 'argv:fault:' + prog
+        elif r < 0.45:
+            c['mkfail'] = rng.randrange(0, 3)
+            c['tag'] = 'argv:mkstemp-fails'
+        elif r < 0.60:
+            cs = [i for i in spec['inputs'] if A.effective_kind(spec, i) == 'c']
+            if cs and '-E' not in spec['modes'] and '-M' not in spec['modes']:
+                rng.choice(cs)['bad'] = rng.choice(['syntax', 'codegen'])
+                c['tag'] = 'argv:bad-source'
+        modes = spec['modes']
+        if '-E' in modes and '-M' not in modes and spec['out'] not in (None, '-'):
+            c['cc1_o'] = spec['out']
+        cases.append(c)
+    return cases
+
+def argv_key(c):
+    return json.dumps([c['argv'], c.get('fault') and [c['fault'][k] for k in ('prog', 'k', 'how', 'num', 'leaves')], c.get('mkfail')])
+
+def argv_describe(c):
+    return {'command': 'chibicc ' + ' '.join(json.dumps(w) if (not w or re.search(r'[^A-Za-z0-9_./=,+-]', w)) else w for w in c['argv']),
+            'fault': c.get('fault'), 'mkfail': c.get('mkfail')}
+
+def dep_text_check(ctx, H, c, o):
+    """the TEXT of every dependency file a fault-free run wrote against Model depText (`drv_c14 deptext`); returns disagreements"""
+    spec = c['spec']
+    out = []
+    snapdir = os.path.dirname(H.cc)
+    std = [os.path.join(snapdir, 'include'), '/usr/local/include', '/usr/include/x86_64-linux-gnu', '/usr/include']
+    pre_inc = [m[1] for m in spec['misc'] if m[0] == '-include']
+    lines, wants = [], []
+    for inp in spec['inputs']:
+        if A.effective_kind(spec, inp) != 'c':
+            continue
+        dp = A.dep_path(spec, inp)
+        if dp is None:
+            continue
+        d = os.path.dirname(inp['name']) or '.'
+        incl = pre_inc + [inp['name'], d + '/c14_h.h', os.path.join(snapdir, 'include', 'stddef.h')]
+        lines.append('\t'.join(['argv=' + A.US.join(c['argv']), 'input=' + inp['name'], 'incl=' + A.US.join(incl), 'std=' + A.US.join(std)]))
+        wants.append((inp, dp))
+    if not lines:
+        return out
+    model = ctx.driver('deptext', ''.join(l + '\n' for l in lines)).split('\n')
+    # several units may share one dependency file: the last one wins
+    final = {}
+    for (inp, dp), m in zip(wants, model):
+        final[dp] = (inp, m)
+    for dp, (inp, m) in final.items():
+        mm = re.match(r'deps=(\S*) path=(\S+)$', m)
+        if not mm:
+            out.append({'kind': 'dependency text', 'input': argv_describe(c), 'case': c, 'model': m, 'impl': '-'})
+            continue
+        want_text, want_path = A.dec(mm.group(1)), A.dec(mm.group(2))
+        p = os.path.join(o['wd'], dp)
+        got = open(p, 'rb').read().decode(errors='replace') if os.path.isfile(p) else None
+        if want_path != dp or got != want_text:
+            out.append({'kind': 'dependency text', 'input': argv_describe(c), 'case': c, 'model': {'path': want_path, 'text': want_text},
+                        'impl': {'path': dp, 'text': got}})
+    return out
+
+def argv_oracle(c, o):
+    """the property's postconditions on a real run of a structured command (independent of the model)"""
+    bad = []
+    spec = c['spec']
+    rc = o['rc']
+    if o['leftover']:
+        bad.append(f"temporary file(s) left behind: {o['leftover']}")
+    if rc < 0:
+        bad.append(f'the driver itself died (signal/timeout {rc})')
+        return bad
+    failed_child = [x for x in o['children'] if x[2] != 'exit:0']
+    if failed_child and rc == 0:
+        bad.append(f'a child failed ({failed_child[0][0]} #{failed_child[0][1]}: {failed_child[0][2]}) but the driver exited with status 0')
+    # a unit whose front end failed has none of its outputs created or overwritten -- the dependency file included
+    cs = [i for i in spec['inputs'] if A.effective_kind(spec, i) == 'c']
+    for prog, k, st, opath in o['children']:
+        if prog == 'cc1' and st != 'exit:0' and k < len(cs):
+            inp = cs[k]
+            front_end = bool(inp.get('bad')) or (c.get('fault') or {}).get('prog') == 'cc1'
+            if not front_end:
+                continue
+            dp = A.dep_path(spec, inp)
+            later = [A.dep_path(spec, j) for j in cs[:k]]
+            if dp is not None and dp in o['changed'] and dp not in later:
+                bad.append(f"front end of {inp['name']} failed but its dependency file {dp} was created/overwritten")
+            if opath is not None and opath in o['changed']:
+                bad.append(f"front end of {inp['name']} failed but its output {opath} was created/overwritten")
+    if c['tag'] != 'argv':
+        return bad
+    kind, outs = A.expected(spec)
+    if kind == 'fail' and rc == 0:
+        bad.append(f'the command must be rejected ({outs}) but the driver exited with status 0')
+    if kind == 'ok':
+        if rc != 0:
+            bad.append(f"nothing can fail in this command but the driver exited with status {rc}: {o['stderr'][-300:]}")
+        else:
+            changed = set(o['changed'])
+            if changed != set(outs):
+                bad.append(f'created/overwritten paths {sorted(changed)} differ from the requested outputs {sorted(outs)}')
+            name_tags = dict(o['files0'])
+            for p, cls in outs.items():
+                if p in o['post']:
+                    got = A.classify(H_GLOBAL[0], o['wd'], p, o['pre'], o['post'], name_tags)
+                    if got[0] != cls:
+                        bad.append(f'requested output {p} should be {cls}, is {got}')
+    return bad
+
+H_GLOBAL = [None]
+
+def argv_leg(ctx, corr, H):
+    H_GLOBAL[0] = H
+    cases = argv_cases(ctx)
+    t0 = time.time()
+    with ThreadPoolExecutor(max_workers=max(2, min(NPROC, 16))) as ex:
+        obs = list(ex.map(lambda c: H.run_real(c), cases))
+    text = ''
+    for c, o in zip(cases, obs):
+        faults = A.observed_faults(H, c, o)
+        text += A.model_input(c, o, H.libpaths, faults) + '\n'
+    model = ctx.driver('argv', text).split('\n')
+    corr.extra['argv_runs_s'] = round(time.time() - t0, 1)
+    corr.extra['argv_cases'] = len(cases)
+    for i, (c, o) in enumerate(zip(cases, obs)):
+        corr.evaluations += 1
+        corr.count(c['tag'] if not c['tag'].startswith('corpus') else 'argv:corpus')
+        corr.nontrivial.add('argv:' + argv_key(c))
+        m = model[i] if i < len(model) else '<missing>'
+        viol = argv_oracle(c, o)
+        for v in viol:
+            corr.violations.append({'what': v, 'input': argv_describe(c), 'case': c, 'expected': 'C14 postcondition',
+                                    'got': {'status': o['rc'], 'trace': o['trace'], 'changed': o['changed'], 'leftover': o['leftover'],
+                                            'stderr': o['stderr'][-300:]}})
+        if m != o['line']:
+            corr.disagreements.append({'kind': 'driver run from argv', 'input': argv_describe(c), 'case': c, 'model': m, 'impl': o['line'],
+                                       'stderr': o['stderr'][-300:]})
+        elif o['rc'] == 0 and c['tag'] == 'argv':
+            corr.disagreements += dep_text_check(ctx, H, c, o)
+            if '=deps[' in o['line']:
+                corr.count('argv:deps-file-text-compared')
+        if len(corr.violations) + len(corr.disagreements) > 8:
+            break
+    for c, o in zip(cases, obs):
+        if c.get('spec', {}).get('deps') and o['rc'] == 0 and len(corr.samples) < 5:
+            corr.sample({'case': argv_describe(c), 'real': o['line'][:700]})
+            break
+
 def correspond(ctx, corr):
     H = get_harness(ctx)
     corr.rule = ('cases = command shapes {-E,-S,-c,link} x {-o, none} x 1..3 inputs (.c/.s/.o, plus -l, unknown extension, sub/dir '
@@ -886,6 +1138,15 @@ def correspond(ctx, corr):
                  'missing output directory, failing mkstemp}.  Each case runs the real driver under the LD_PRELOAD observer and the '
                  'Lean model; traces, status and final file sets are compared, and the property postconditions are checked on the '
                  'real run.  non-trivial = a fault is injected or the command has more than one input; distinct = by case text.  '
+                 'Argument parser: every exact/prefix option of the regenerated ladder alone, after a file, before each option that takes '
+                 'an argument, plus seeded random argument lists (joined/separate/missing/empty/odd arguments, several inputs) through the '
+                 'snapshot\'s parse_args in process (ASan/UBSan) and through the model; non-trivial = at least two words one of which is an '
+                 'option.  Driver from argv: structured command lines (mode flags incl. -M, -o joined/separate, -x, -MD/-MMD/-MF/-MP/-MT/-MQ, '
+                 '-D/-U/-I/-include/-idirafter, -l/-L/-Wl,/-Xlinker/-s/-static/-shared, ignored options, 1..3 inputs of every kind, '
+                 'trailing options without argument) x {no fault, shim faults, bad sources, failing mkstemp, unwritable outputs}; the model '
+                 'is given the children\'s observed outcomes, and status, trace, files, dependency text and every child command line are '
+                 'compared; independently the property\'s postconditions (exactly the requested outputs incl. dependency files; a failing '
+                 'front end leaves neither output nor dependency file).  '
                  'Then N=4..8 drivers run simultaneously in one directory and each is compared with its solo run.')
     cases = gen_cases(ctx)
     obs = run_cases(ctx, corr, H, cases)
@@ -897,6 +1158,10 @@ def correspond(ctx, corr):
                                          'SIGSEGV, SIGKILL} x {output untouched, junk, removed}' if ctx.thorough
                                          else 'all shapes with 1..3 inputs over {.c,.s,.o}; per shape a seeded sample of 7 fault points')
     if not corr.violations and not corr.disagreements:
+        args_leg(ctx, corr)
+    if not corr.violations and not corr.disagreements:
+        argv_leg(ctx, corr, H)
+    if not corr.violations and not corr.disagreements:
         concurrency(ctx, corr, H)
     # a handful of witnesses is enough; every one of them is a replay file
     del corr.violations[4:]
@@ -905,6 +1170,28 @@ def correspond(ctx, corr):
 def search(ctx, broken, corr):
     """a proof or the tie broke without a violation in the standard run: full enumeration with the postconditions as oracle"""
     H = get_harness(ctx)
+    H_GLOBAL[0] = H
+    # (a) the argument parser in process: any argument list that crashes parse_args
+    try:
+        T = A.read_tables(ctx.lean_dir)
+        AH = A.ArgsHarness(ctx, T, sh, VERIF)
+        words = A.boundary_words(T) + [A.gen_words(ctx.rng, T) for _ in range(6000)]
+        words = [w for w in words if not (len(w) == 1 and w[0] == '')]
+        real, err = AH.run(words)
+        for w, r in zip(words, real):
+            if r.split(' ')[0] in ('signal', 'exit'):
+                return {'what': 'parse_args does not answer this argument list with a return, usage() or error(): ' + r[:200],
+                        'input': {'argv': ['chibicc'] + w}, 'argv': w, 'expected': 'usage(1) or a diagnostic', 'got': r[:300]}
+    except Exception as e:
+        log('C14 search: argument-parser harness unavailable:', str(e)[:300])
+    # (b) structured command lines with the property's postconditions as oracle
+    for c in argv_cases(ctx):
+        o = H.run_real(c)
+        v = argv_oracle(c, o)
+        if v:
+            return {'what': v[0], 'input': argv_describe(c), 'case': c, 'expected': 'C14 postcondition',
+                    'got': {'status': o['rc'], 'trace': o['trace'], 'changed': o['changed'], 'leftover': o['leftover']}}
+    # (c) the enumerated shapes x fault points
     for mode, with_o, kinds in shapes(3, ['c', 's', 'o']):
         b = with_sentinels(base_case(mode, with_o, kinds))
         for c in [b] + fault_variants(b, True):
@@ -918,6 +1205,42 @@ def search(ctx, broken, corr):
 def replay(ctx, corr, path):
     payload = json.load(open(path))
     c = payload.get('case')
+    if not c and payload.get('argv') is not None:
+        words = payload['argv']
+        T = A.read_tables(ctx.lean_dir)
+        AH = A.ArgsHarness(ctx, T, sh, VERIF)
+        real, err = AH.run([words])
+        m = ctx.driver('parse', 'argv=' + A.US.join(words) + '\n').strip()
+        corr.evaluations = 1
+        print('replay: parse_args on', ['chibicc'] + words)
+        print('  real :', real[0] if real else err[-300:])
+        print('  model:', m)
+        r = real[0] if real else 'no output'
+        if r.split(' ')[0] in ('signal', 'exit', 'no'):
+            corr.violations.append({'what': 'parse_args does not answer this argument list with a return, usage() or error(): ' + r[:200],
+                                    'input': {'argv': ['chibicc'] + words}, 'argv': words, 'expected': 'usage(1) or a diagnostic', 'got': r[:300]})
+        elif A.norm_parse_line(r) != A.norm_parse_line(m):
+            corr.disagreements.append({'kind': 'parse_args', 'input': {'argv': ['chibicc'] + words}, 'argv': words, 'model': m, 'impl': r})
+        return
+    if c and 'argv' in c:
+        H = get_harness(ctx)
+        H_GLOBAL[0] = H
+        o = H.run_real(c)
+        corr.evaluations = 1
+        m = ctx.driver('argv', A.model_input(c, o, H.libpaths, A.observed_faults(H, c, o)) + '\n').strip()
+        v = argv_oracle(c, o)
+        print('replay:', argv_describe(c))
+        print('  real :', o['line'])
+        print('  model:', m)
+        print('  postconditions:', v or 'hold')
+        for x in v:
+            corr.violations.append({'what': x, 'input': argv_describe(c), 'case': c, 'expected': 'C14 postcondition',
+                                    'got': {'status': o['rc'], 'trace': o['trace'], 'changed': o['changed'], 'leftover': o['leftover']}})
+        if m != o['line']:
+            corr.disagreements.append({'kind': 'driver run from argv', 'input': argv_describe(c), 'case': c, 'model': m, 'impl': o['line']})
+        elif o['rc'] == 0 and c.get('tag') == 'argv':
+            corr.disagreements += dep_text_check(ctx, H, c, o)
+        return
     if not c:
         corr.extra['replay'] = 'replay file carries no case'
         return
@@ -937,7 +1260,17 @@ def replay(ctx, corr, path):
         corr.disagreements.append({'kind': 'driver trace', 'input': describe(c), 'case': c, 'model': m, 'impl': o['line']})
 
 MANIFEST = {
-    'level_text': 'Lean 4 theorems over a small-step model of main.c\'s driver, for ALL commands (any number of inputs of any '
+    'level_text': 'Lean 4 theorems about the driver FROM ARGV: the option ladder of parse_args, take_arg\'s list, the linker/assembler/cc1 '
+                  'command lines, cc1\'s write order and every file-system call site are regenerated from main.c on every run; parse_args '
+                  'is total - no argument list, in particular no option missing its argument at the end, reaches a NULL dereference or '
+                  'stores a NULL (C14_args_total: a whole-table decide that pass 1 and pass 2 walk argv in step); the cc1 child re-parses '
+                  'the same options (C14_cc1_reparse); the process always exits, with non-zero status iff something failed, without '
+                  'temporaries (C14_argv_*), and is the driver-loop run of the parsed command (C14_argv_compose), so that the following '
+                  'hold for argv; dependency output (-M/-MD/-MF): written last and only on success (C14_deps_written_last), never into a '
+                  'path of the driver, untouched when the front end failed (C14_deps_output, C14_deps_untouched_on_failure, '
+                  'C14_deps_never_output); the only resources two drivers share are user-named outputs and mkstemp\'s name space '
+                  '(C14_shared_resources, C14_concurrent_hypotheses, C14_concurrent_mkstemp).  '
+                  'Lean 4 theorems over a small-step model of main.c\'s driver, for ALL commands (any number of inputs of any '
                   'kind), ALL fault schedules (any child may end with any exit code or signal; a failing as/ld may leave junk) '
                   'and all initial file systems: the driver always terminates; exit status 1 iff some step failed (C14_status); '
                   'no temporary exists in any terminal world (C14_no_temps); a failing front end leaves its unit\'s output path '
